@@ -128,6 +128,9 @@ class Rig:
 
         cls = api_mod.SwitcherType1Api if api_type == 1 else api_mod.SwitcherType2Api
         api = cls(dev.ip, device_id, key)
+        from . import tour
+
+        tour.note_device(device_id, key, api_type)
         before = len(dev.conns)
         await api.connect()
         # the accept callback runs on the next loop cycles
